@@ -593,6 +593,8 @@ def c10(d, run):
     sim_stage(d, run, "real cache deviates from Cache.tla (wait barrier / termination)", ["chan", "out", "store", "costs"],
               ["NoOrphan", "Agree"], 40, 400)
     lock_stage(d, run, LOCK_LIFE)
+    free_stage(d, run, "a wait() racing close() does not return (real threads, 150 fresh caches per instance)",
+               [("sync", "thread", 2, 10), ("async", "thread", 2, 10), ("async", "pool", 2, 10)], kinds="close")
     if _thorough(run):
         exh_stage(d, run, "real cache deviates from Cache.tla (wait barrier / termination)", "exh_life", ["chan", "out", "store", "costs"],
                   ["NoOrphan", "Agree"], flavors=("sync", "async"))
@@ -618,7 +620,7 @@ def c12(d, run):
     sim_stage(d, run, "real cache deviates from Cache.tla (close protocol)", ["life", "out", "chan", "store"], ["NoOrphan"], 40, 400,
               flavors=("sync", "async"))
     free_stage(d, run, "the real background loops violate a state predicate of Cache.tla (worker termination, close() under load)",
-               [("sync", "thread", 5, 25), ("async", "thread", 5, 25)], kinds="norm,par,drop,tiny,par")
+               [("sync", "thread", 6, 30), ("async", "thread", 6, 30)], kinds="norm,par,drop,tiny,close,close")
     if _thorough(run):
         exh_stage(d, run, "real cache deviates from Cache.tla (close protocol)", "exh_life", ["life", "out", "chan", "store"], ["NoOrphan"],
                   flavors=("sync", "async"))
@@ -890,7 +892,7 @@ def c19(d, run):
     free_stage(d, run, "AsyncCache's real background tasks violate a state predicate of Cache.tla",
                [("async", "thread", 4, 24), ("async", "pool", 4, 24), ("async", "local", 4, 24), ("sync", "thread", 4, 8)])
     free_stage(d, run, "AsyncCache under parallel clients violates a state predicate of Cache.tla (incl. wait() racing the stopping processor)",
-               [("async", "thread", 3, 12), ("async", "pool", 3, 12)], kinds="par")
+               [("async", "thread", 3, 12), ("async", "pool", 3, 12)], kinds="par,close,close")
     exh_stage(d, run, "real AsyncCache deviates from Cache.tla", "exh_q", ALL_CMP, ALL_INV, flavors=("async",))
     _need(d, h, ["RemSendA", "RemRet", "PStop", "LStop", "ClsStopSend", "PCleanupKey", "PVictim"])
     # same sequential histories on both flavours: observable results must be identical
